@@ -41,7 +41,20 @@ impl WalArchiveRecovery {
             })
             .collect();
 
-        archives.sort();
+        // Log order, not name order: the id is zero-padded to five digits only, so from
+        // log 100000 on a plain name sort would put newer logs before older ones.
+        archives.sort_by_key(|p| {
+            let name = p
+                .file_name()
+                .map(|n| n.to_string_lossy().to_string())
+                .unwrap_or_default();
+            let id = name
+                .strip_prefix("wal-")
+                .and_then(|rest| rest.split('-').next())
+                .and_then(|id| id.parse::<u64>().ok())
+                .unwrap_or(u64::MAX);
+            (id, name)
+        });
 
         info!(
             target: "wal_archive_recovery::list_archives",
